@@ -3,6 +3,7 @@ import json
 import os
 import shutil
 import subprocess
+from pathlib import Path
 
 from . import common as C
 from .engine import Case, Prop
@@ -203,6 +204,91 @@ def meta_state(xdg, current):
         return "garbage"
 
 
+def same_shape_other_data():
+    """History "the index was written for OTHER data of the same shape": a build whose shipped
+    data differs from this tree's in one number, while every asset keeps its name, byte length
+    and modification time, creates the on-disk index; then the build with this tree's data starts
+    on that directory and must answer like a fresh in-memory database.
+
+    Debug builds read the assets at run time from the crate's own `db/` directory, so this needs a
+    copy of the working tree: it is made under /var/tmp (outside /repo and /verif), `any` is built
+    there (target directory seeded from the runner's own build of `any`, so only the crate itself
+    is compiled), and the copy, with its build output, is removed before returning.
+    Returns (status, detail): status in {"ok", "fail", "setup"}."""
+    import gzip, zlib
+    copy = Path("/var/tmp") / f"verif-c15-copy-{os.getpid()}"
+    xdg = SCR / "xdg-c15-shape"
+    query = "standard gravity g0"
+    try:
+        shutil.rmtree(copy, ignore_errors=True)
+        rc = subprocess.run(["rsync", "-a", "--exclude", "/target", "--exclude", "/.git", str(C.REPO) + "/", str(copy) + "/"],
+                            capture_output=True, text=True, timeout=600)
+        if rc.returncode != 0:
+            return "setup", "rsync failed: " + rc.stderr[-200:]
+        if C.ANY_TARGET.exists():
+            subprocess.run(["cp", "-r", str(C.ANY_TARGET), str(copy / "target")], timeout=600)
+        env = dict(C.ENV)
+        env.pop("RUSTFLAGS", None)
+        with C.Lock("cargo"):
+            b = subprocess.run(["cargo", "build", "--offline", "--bin", "any", "--manifest-path", str(copy / "Cargo.toml"),
+                                "--target-dir", str(copy / "target")], capture_output=True, text=True, timeout=1800, env=env, cwd=str(copy))
+        if b.returncode != 0:
+            return "setup", "build of the copy failed: " + b.stderr[-300:]
+        any_bin = copy / "target" / "debug" / "any"
+        asset = copy / "db" / "files.bin.gz"
+        shipped = asset.read_bytes()
+        st = asset.stat()
+        raw = gzip.decompress(shipped)
+        pat = bytes.fromhex("1a0002fe25")   # CBOR uint32 196133, the numerator of 196133/20000 = 9.80665
+        if raw.count(pat) != 1:
+            return "setup", "the numerator of standard gravity was not found in files.bin.gz"
+        i = raw.index(pat)
+        variant = None
+        for num in [196200] + list(range(196134, 197134)):
+            new = raw[:i] + b"\x1a" + num.to_bytes(4, "big") + raw[i + 5:]
+            for lvl in (9, 8, 7, 6, 5, 4):
+                c = zlib.compressobj(lvl, zlib.DEFLATED, 31, 9)
+                out = c.compress(new) + c.flush()
+                if len(out) == len(shipped) and out != shipped:
+                    variant = out
+                    break
+            if variant:
+                break
+        if variant is None:
+            return "setup", "no same-length variant of files.bin.gz found"
+
+        def run(fresh_dir=False):
+            e = dict(env, XDG_DATA_HOME=str(xdg), HOME=str(xdg))
+            e.pop("ANYTHING_VERIF_CRASH", None)
+            if fresh_dir:
+                shutil.rmtree(xdg, ignore_errors=True)
+            xdg.mkdir(parents=True, exist_ok=True)
+            r = subprocess.run([str(any_bin), query], capture_output=True, text=True, timeout=120, env=e)
+            return (r.stdout + r.stderr).strip()
+
+        def put(data):
+            asset.write_bytes(data)
+            os.utime(asset, ns=(st.st_atime_ns, st.st_mtime_ns))
+
+        put(variant)
+        out1 = run(fresh_dir=True)
+        put(shipped)
+        out2 = run()
+        ref = run(fresh_dir=True)
+        if out1 == ref:
+            return "setup", f"the altered data did not change the answer ({out1!r})"
+        if out2 != ref:
+            return "fail", (f"history: a build whose db/files.bin.gz gives standard gravity another numerator (same name, {len(shipped)} bytes, "
+                            f"same modification time) creates the index and answers `{query}` with {out1!r}; the build with the shipped data then "
+                            f"starts on that data directory and answers {out2!r}; a fresh data directory answers {ref!r}")
+        return "ok", f"other data of the same shape: {out1!r} -> rebuilt -> {out2!r}"
+    except Exception as e:  # setup trouble is not a verdict on the code
+        return "setup", f"{type(e).__name__}: {e}"
+    finally:
+        shutil.rmtree(copy, ignore_errors=True)
+        shutil.rmtree(xdg, ignore_errors=True)
+
+
 class C15(Prop):
     """Theorems (Props/C15.lean): the rebuild state machine keeps the invariant `metadata says current and the index opens => the committed index is the shipped data` through every step, crash prefix and listed damage, so every history ends with fresh answers and the metadata is written only after the commit; correspondence: real runs aborted at each crash point from every prior directory state, followed by restarts, compared with the model's predicted metadata state and with a freshly built in-memory database."""
     id = "C15"
@@ -259,8 +345,22 @@ class C15(Prop):
                 corr_fail.append((name, observed, pr))
         shutil.rmtree(xdg, ignore_errors=True)
         shutil.rmtree(tmpl, ignore_errors=True)
+        # "written for other data" with NOTHING but the content different (same asset names, byte
+        # lengths, modification times): needs a scratch copy of the tree and a build of it, so it
+        # runs in the thorough tier, and in the quick tier whenever src/db.rs or src/config.rs
+        # differ from the pinned commit
+        from . import fingerprints
+        shape = "not run (quick tier, db.rs and config.rs as pinned)"
+        if tier == "thorough" or fingerprints.stale_for("C15"):
+            status, detail = same_shape_other_data()
+            shape = status + ": " + detail[:200]
+            n += 1
+            if status == "fail":
+                spec_fail.insert(0, ("history:same-shape-other-data", "same-shape-other-data", detail))
+            elif status == "ok":
+                nontriv += 1
         return {"evaluations": n, "nontrivial": nontriv, "spec_fail": spec_fail[:10], "corr_fail": corr_fail[:10],
-                "dist": {"histories": len(hist), "prior_states": len(PRIOR), "crash_points": len(CRASH_POINTS)},
+                "dist": {"histories": len(hist), "prior_states": len(PRIOR), "crash_points": len(CRASH_POINTS), "same-shape-other-data: " + shape: 1},
                 "samples": [{"history": f"prior={p} crashes={c}"} for p, c in hist[:: max(1, len(hist) // 5)][:5]]}
 
 
